@@ -1,0 +1,30 @@
+//go:build verif
+
+/*
+ * Copyright 2024 CloudWeGo Authors
+ *
+ * Licensed under the Apache License, Version 2.0 (the "License");
+ * you may not use this file except in compliance with the License.
+ * You may obtain a copy of the License at
+ *
+ *     http://www.apache.org/licenses/LICENSE-2.0
+ *
+ * Unless required by applicable law or agreed to in writing, software
+ * distributed under the License is distributed on an "AS IS" BASIS,
+ * WITHOUT WARRANTIES OR CONDITIONS OF ANY KIND, either express or implied.
+ * See the License for the specific language governing permissions and
+ * limitations under the License.
+ */
+
+package compose
+
+// verifTaskHook, when set (tests built with -tags verif only), is called at the hand-off points of
+// the task manager: it may record the event and yield or delay to widen the window that follows.
+// It must be set before any run starts and not changed while runs are in flight.
+var verifTaskHook func(point string, tm *taskManager, ta *task)
+
+func verifPoint(point string, tm *taskManager, ta *task) {
+	if h := verifTaskHook; h != nil {
+		h(point, tm, ta)
+	}
+}
